@@ -13,7 +13,7 @@ import vlib
 
 PID = "C16"
 NSHARDS = 4
-PARTS = ["msg", "dec", "turn", "cand", "prio", "sets"]
+PARTS = ["msg", "dec", "turn", "cand", "prio", "sets", "uri"]
 
 CFG = {
     "quick": dict(StrLens="{0, 1, 2, 3, 4, 5, 763}", DataLens="{0, 1, 2, 3, 4, 1200}", SweepMax=763, MaxAttrs=2, NRanks=12),
